@@ -517,7 +517,7 @@ func (r *Recomposer) recomp(v any, rv reflect.Value) {
 		if v == nil {
 			panic(fmt.Errorf("can not convert nil to a %s", rv.Type()))
 		}
-		rv.Set(reflect.ValueOf(v).Convert(rv.Type()))
+		r.setValue(v, rv, nil) // also takes a json.Number
 
 	default:
 		panic(fmt.Errorf("can not convert (%T)%v to a %s", v, v, rv.Type()))
